@@ -1,6 +1,7 @@
 SPECIFICATION FairSpec
 CONSTANTS
   Trees <- AllTrees
+  AllowStop = FALSE
   Slots = 2
 PROPERTY RootCompletes
 PROPERTY AllDoneAtEnd
